@@ -243,9 +243,11 @@ pub fn main(args: &[String]) -> i32 {
             }
             let pool = [600usize, 450, 300, 700, 520, 1, 0];
             for round in 0..14usize {
-                let k = 2 + round % 3;
+                let k = 3 + round % 2;
                 for j in 0..k {
-                    let sz = pool[(round * 3 + j) % pool.len()];
+                    // every other round: equal large chunks, two per datagram, so that the resend splits between
+                    // chunks that travelled together the first time (and the other way round)
+                    let sz = if round % 2 == 0 { 600 } else { pool[(round * 3 + j) % pool.len()] };
                     d.send(0, true, sz.min(max_sz));
                     // flush after the first chunk, and at the end: the first transmission groups differently
                     if j == 0 || j + 1 == k {
